@@ -76,8 +76,12 @@ func (vc *VC) execBlocks(fn *ssa.Function, st0 *State, _ interface{}) []retRec {
 			for i, s := range ins {
 				conds[i] = s.pc
 			}
-			for phi, vs := range phiVals {
-				vc.vals[phi] = mergeVals(vc, "phi", conds, vs)
+			for _, in := range b.Instrs {
+				phi, ok := in.(*ssa.Phi)
+				if !ok {
+					break
+				}
+				vc.vals[phi] = mergeVals(vc, "phi", conds, phiVals[phi])
 			}
 			st = vc.mergeStates(fmt.Sprintf("b%d", b.Index), ins)
 		}
@@ -109,6 +113,9 @@ func (vc *VC) execBlocks(fn *ssa.Function, st0 *State, _ interface{}) []retRec {
 					vs = append(vs, vc.get(st, r))
 				}
 				rets = append(rets, retRec{st: st, vals: vs})
+				if isTop {
+					vc.loopReturns(st, t, vs)
+				}
 			case *ssa.Panic:
 				vc.curInstr = in
 				vc.panicInstr(st, t)
@@ -167,6 +174,20 @@ func (vc *VC) enterLoop(li *LoopInfo, pre *State) *State {
 	li.pre = pre.clone()
 	env := vc.funcEnv(pre, li.Pos)
 	vc.bindIter(env, li, pre)
+	for _, cl := range vc.Con.OfLoop("let", li.Ordinal) {
+		// loop-entry snapshot: name = value of the expression just before the loop is entered
+		i := strings.Index(cl.Text, "=")
+		if i < 0 {
+			panic(unsupported("%s:%d: loop let syntax: name = expr", cl.File, cl.Line))
+		}
+		vc.specDepth++
+		v := env.eval(cl.Text[i+1:])
+		vc.specDepth--
+		if v.K == KInt {
+			v.S = vc.name("let_"+strings.TrimSpace(cl.Text[:i]), "Int", v.S)
+		}
+		vc.lets[strings.TrimSpace(cl.Text[:i])] = v
+	}
 	invs := vc.Con.OfLoop("invariant", li.Ordinal)
 	for _, cl := range invs {
 		g := vc.specBool(env, cl)
@@ -175,7 +196,8 @@ func (vc *VC) enterLoop(li *LoopInfo, pre *State) *State {
 	h := pre.clone()
 	li.hdrLocal = map[*ssa.Alloc]Val{}
 	li.hdrHeap = map[string]string{}
-	for a, v := range pre.locals {
+	for _, a := range sortedAllocs(pre.locals) {
+		v := pre.locals[a]
 		if v.K == KAddr || v.K == KFunc || v.K == KUnit {
 			continue
 		}
@@ -194,8 +216,8 @@ func (vc *VC) enterLoop(li *LoopInfo, pre *State) *State {
 	al := vc.fresh("alloc", "Int")
 	h.alloc = al
 	h.assume(vc, Ge(al, pre.alloc))
-	for _, v := range li.hdrLocal {
-		h.assume(vc, vc.valid(h, v))
+	for _, a := range sortedAllocs(li.hdrLocal) {
+		h.assume(vc, vc.valid(h, li.hdrLocal[a]))
 	}
 	li.hdr = h.clone()
 	env2 := vc.funcEnv(h, li.Pos)
@@ -250,7 +272,8 @@ func (vc *VC) closeLoop(li *LoopInfo) {
 		vc.addObl("dec", fmt.Sprintf("dec:L%d", li.Ordinal), li.hdr, F, li.Pos, nil, "loop has no decreases clause")
 	}
 	// cells and heap arrays that hold their header value at every back edge were not changed by the loop
-	for a, hv := range li.hdrLocal {
+	for _, a := range sortedAllocs(li.hdrLocal) {
+		hv := li.hdrLocal[a]
 		same := true
 		for _, bs := range li.backSts {
 			bv, ok := bs.locals[a]
@@ -268,7 +291,13 @@ func (vc *VC) closeLoop(li *LoopInfo) {
 			}
 		}
 	}
-	for n, hc := range li.hdrHeap {
+	var hnames []string
+	for n := range li.hdrHeap {
+		hnames = append(hnames, n)
+	}
+	sort.Strings(hnames)
+	for _, n := range hnames {
+		hc := li.hdrHeap[n]
 		same := true
 		for _, bs := range li.backSts {
 			if vc.resolve(bs.heap[n]) != hc {
@@ -313,9 +342,9 @@ func (vc *VC) loopFrame(n, hdr, pre string, li *LoopInfo) {
 	switch {
 	case strings.HasPrefix(n, "F_"):
 		var excl []string
-		for k, os := range ms.Fields {
+		for _, k := range sortedFieldKeys(ms.Fields) {
 			if n == k || strings.HasPrefix(n, k+"_") {
-				for _, o := range os {
+				for _, o := range ms.Fields[k] {
 					excl = append(excl, Ne("o", o))
 				}
 			}
@@ -333,6 +362,9 @@ func (vc *VC) loopFrame(n, hdr, pre string, li *LoopInfo) {
 		// per region: untouched outside declared windows
 		var excl []string
 		for _, m := range ms.Regions {
+			if m.Elem != "" && n != m.Elem && !strings.HasPrefix(n, m.Elem+"_") {
+				continue
+			}
 			excl = append(excl, Not(And(Eq("r", m.Reg), Le(m.Lo, "i"), Lt("i", m.Hi))))
 		}
 		vc.define(fmt.Sprintf("(forall ((r Int) (i Int)) (! (=> %s (= (select (select %s r) i) (select (select %s r) i))) :pattern ((select (select %s r) i))))",
@@ -540,4 +572,42 @@ func sortedKeys(m map[string]bool) []string {
 	}
 	sort.Strings(out)
 	return out
+}
+
+func sortedAllocs(m map[*ssa.Alloc]Val) []*ssa.Alloc {
+	out := make([]*ssa.Alloc, 0, len(m))
+	for a := range m {
+		out = append(out, a)
+	}
+	sort.Slice(out, func(i, j int) bool {
+		if out[i].Pos() != out[j].Pos() {
+			return out[i].Pos() < out[j].Pos()
+		}
+		if out[i].Name() != out[j].Name() {
+			return out[i].Name() < out[j].Name()
+		}
+		return out[i].Parent().Name() < out[j].Parent().Name()
+	})
+	return out
+}
+
+// loopReturns checks "loop N returns P" clauses at a return statement that lies inside loop N.
+func (vc *VC) loopReturns(st *State, ret *ssa.Return, vals []Val) {
+	for _, li := range vc.loopList {
+		cls := vc.Con.OfLoop("returns", li.Ordinal)
+		if len(cls) == 0 || li.hdr == nil {
+			continue
+		}
+		p := ret.Pos()
+		if !(li.Pos <= p && p < li.End) {
+			continue
+		}
+		env := vc.funcEnv(st, p)
+		vc.bindResults(env, vc.Con, vals, fnFullName(vc.Fn))
+		k := vc.count(fmt.Sprintf("ret:L%d", li.Ordinal))
+		for _, cl := range cls {
+			g := vc.specBool(env, cl)
+			vc.addObl("ret", fmt.Sprintf("ret:L%d#%d.%d", li.Ordinal, k, cl.Index), st, g, p, cl.Tags, cl.Text)
+		}
+	}
 }
